@@ -547,7 +547,7 @@ func unitC05(e common.Env, p *common.Part) {
 // altered PER DESTINATION on the wire (equivocation of commitments, public keys and shares), so the reliable broadcast is
 // what has to keep the honest parties consistent.
 func unitC05orch(e common.Env, p *common.Part) {
-	p.Rule = "BLS and PS key generation through real LoudScheme / SilentScheme objects on the simulated network (random mode); one participant's protocol transmissions are altered per destination on the wire: one victim gets the commitment / public key / share with a flipped byte (or a message of an earlier key generation on the same cluster) while the others get the genuine one; or the misbehaving party's second node, which is not a participant, shows the victim another (valid) commitment and key as its party's while the two nodes vouch for each other; (n,t) in {(3,2),(3,3),(4,3)}; oracle as in c05: honest completers agree and sign jointly under the reported key, or return errors; no panic (a crash in a background goroutine kills the child and is reported by the parent); distinct key = (scheme, mode, n, t, strategy, victim, seed); non-trivial when an altered transmission was delivered"
+	p.Rule = "BLS and PS key generation through real LoudScheme / SilentScheme objects on the simulated network (random mode); one participant's protocol transmissions are altered per destination on the wire: one victim gets the commitment / public key / share with a flipped byte (or a message of an earlier key generation on the same cluster) while the others get the genuine one; or the misbehaving party's second node, which is not a participant, shows the victim another (valid) commitment and key as its party's while the two nodes vouch for each other; or the participant sends two commitments and two matching valid keys to every honest party, back to back, in opposite orders to two groups; (n,t) in {(3,2),(3,3),(4,3)}; oracle as in c05: honest completers agree and sign jointly under the reported key, or return errors; no panic (a crash in a background goroutine kills the child and is reported by the parent); distinct key = (scheme, mode, n, t, strategy, victim, seed); non-trivial when an altered transmission was delivered"
 	type cs struct {
 		sch    scheme
 		n, t   int
@@ -559,7 +559,7 @@ func unitC05orch(e common.Env, p *common.Part) {
 	for _, sch := range []scheme{{Name: "bls"}, {Name: "ps", MsgLen: 1}} {
 		for _, x := range []struct{ n, t int }{{3, 2}, {3, 3}, {4, 3}} {
 			for _, silent := range []bool{false, true} {
-				for _, st := range []string{"equivocate-broadcasts-flip", "equivocate-broadcasts-old-session", "equivocate-everything-flip", "duplicate-with-changed-copy", "replica-outside-the-session"} {
+				for _, st := range []string{"equivocate-broadcasts-flip", "equivocate-broadcasts-old-session", "equivocate-everything-flip", "duplicate-with-changed-copy", "replica-outside-the-session", "both-versions-to-everybody-in-opposite-orders"} {
 					for v := 2; v <= x.n; v++ {
 						if !e.Thorough() && v > 2 && st != "equivocate-broadcasts-flip" {
 							continue
@@ -671,6 +671,63 @@ func unitC05orch(e common.Env, p *common.Part) {
 			}
 			return o
 		})
+		if c.strat == "both-versions-to-everybody-in-opposite-orders" {
+			// the participant holds back its commitment until its key is known, makes a second valid key (its own plus the generator)
+			// and a commitment to it, and then sends BOTH commitments and BOTH keys to every honest party, back to back, in opposite
+			// orders to two groups (first group: genuine first). Whatever the honest parties do with the second version of a round,
+			// they must not end up with different keys for this participant.
+			var hmu sync.Mutex
+			var heldCommit []byte
+			kg := sch.newKG(1)
+			cl.Net.SetInterceptor(1, func(nw *simnet.Net, src uint16, typ uint8, topic, data []byte, dsts []uint16) []simnet.Outgoing {
+				pass := func() []simnet.Outgoing {
+					var o []simnet.Outgoing
+					for _, d := range dsts {
+						o = append(o, simnet.Outgoing{Dst: d, Type: typ, Topic: topic, Data: data})
+					}
+					return o
+				}
+				if typ != uint8(tss.MsgTypeMPC) || len(dsts) != c.n-1 || len(data) < 30 || data[0]>>7 != 1 {
+					return pass()
+				}
+				round, bc, err := kg.ClassifyMsg(data[1:])
+				if err != nil || !bc {
+					return pass()
+				}
+				hmu.Lock()
+				defer hmu.Unlock()
+				switch round {
+				case 2:
+					heldCommit = append([]byte{}, data...)
+					return nil
+				case 3:
+					if heldCommit == nil {
+						return pass()
+					}
+					r2, ok := sch.tweakKey(data[1:])
+					if !ok {
+						return append(pass(), simnet.Outgoing{})[:len(dsts)]
+					}
+					sum := sha256.Sum256(r2[1:])
+					c1 := heldCommit
+					c2 := append([]byte{c1[0], c1[1]}, sum[:]...)
+					w1, w2 := data, append([]byte{data[0]}, r2...)
+					var o []simnet.Outgoing
+					for i, d := range dsts {
+						seq := [][]byte{c1, c2, w1, w2}
+						if i%2 == 1 {
+							seq = [][]byte{c2, c1, w2, w1}
+						}
+						for _, m := range seq {
+							o = append(o, simnet.Outgoing{Dst: d, Type: typ, Topic: topic, Data: m})
+						}
+					}
+					atomic.AddInt32(&altered, 1)
+					return o
+				}
+				return pass()
+			})
+		}
 		if c.strat == "replica-outside-the-session" {
 			// The misbehaving party has a second node (40) that is not a participant. Node 1 shows its own commitment and key to
 			// node 2 only; node 40 shows ANOTHER commitment and key (copies of honest node 2's, so a consistent valid pair) to the
